@@ -177,6 +177,16 @@ pub fn spaces(tier: Tier) -> Vec<Space<'static>> {
     let l = if tier.thorough() { 7 } else { 6 };
     let nt = TOKENS.len() as u64;
     let tot: u64 = (0..=l).map(|k| nt.pow(k)).sum();
+    // names that look like something else: float keywords, exponent forms, literals, keywords of the path language
+    {
+        const LOOKALIKES: [&str; 28] = ["nan", "NaN", "NAN", "inf", "Inf", "infinity", "Infinity", "-inf", "+inf", "e5", "1e5", "1E5", "0x10", "true", "false", "null", "last", "to", "1a", "a1", "-a", "+a", "1.5", ".5", "5.", "--1", "1_000", "1e"];
+        sp.push(Space::new("names that look like numbers, float keywords or literals", LOOKALIKES.len() as u64, |i, acc| {
+            let n = LOOKALIKES[i as usize];
+            for t in [format!("{{{}}}", n), format!("{{0,{}}}", n), format!("{{ {} }}", n), format!("{{{},a}}", n), format!("{{\"{}\"}}", n)] {
+                judge_raw(t.as_bytes(), acc);
+            }
+        }));
+    }
     // numbers around every width boundary as elements (an index when it fits i32, else per the grammar)
     {
         let nums = crate::checks::c20::extreme_number_texts();
